@@ -34,7 +34,7 @@ func typeCallRecv(v ssa.Value) ssa.Value {
 		}
 		return nil
 	}
-	if sc := c.Call.StaticCallee(); sc != nil && sc.Name() == "Type" && sc.Signature.Recv() != nil && len(c.Call.Args) == 1 {
+	if sc := c.Call.StaticCallee(); sc != nil && canonFnName(sc) == "Type" && sc.Signature.Recv() != nil && len(c.Call.Args) == 1 {
 		return c.Call.Args[0]
 	}
 	return nil
@@ -226,7 +226,7 @@ func (ac *assertChecker) findDispatchSites() {
 					continue
 				}
 				g, ok := derefGlobal(outer.X)
-				if !ok || g.Name() != "functions" {
+				if !ok || canonGlobalName(g) != "functions" {
 					continue
 				}
 				r := typeCallRecv(outer.Index)
@@ -659,7 +659,7 @@ func valueDesc(v ssa.Value) string {
 			for _, a := range x.Call.Args {
 				as = append(as, valueDesc(a))
 			}
-			return sc.Name() + "(" + strings.Join(as, ",") + ")"
+			return canonFnName(sc) + "(" + strings.Join(as, ",") + ")"
 		}
 		return "dyncall"
 	case *ssa.Extract:
